@@ -62,6 +62,23 @@ def run(ctx):
         rets = [M.render(pv.of_operand(st["rv"]["a"])) for b in g.blocks for st in b["stmts"] if st["k"] == "assign" and M.Place(st["pl"]).is_local()
                 and M.Place(st["pl"]).local == 0 and st["rv"]["k"] == "use"]
         ctx.ob("R1", "returns-the-accumulator", len(rets) == 1 and rets[0].endswith("Effects>::empty()") or (len(rets) == 1 and re.match(r"^var:\w+$", rets[0]) is not None), g.loc(0), "returns %s" % rets, g)
+        # the loop over the ops may only end when the input is exhausted or when *every* flag has been found
+        bad_exit = []
+        for h, body in M.natural_loops(g):
+            for sb in M.loop_exit_switches(g, body):
+                t = g.term(sb)
+                for i in range(len(t["arms"]) + 1):
+                    tgt = t["arms"][i][1] if i < len(t["arms"]) else t["otherwise"]
+                    if tgt in body or g.blocks[tgt]["term"]["k"] == "unreachable":
+                        continue
+                    v = t["arms"][i][0] if i < len(t["arms"]) else None
+                    a = C.atom_of_edge(prog, g, pv, sb, v, i).text
+                    if a.startswith("is:None(<std::slice::Iter<'a, T> as std::iter::Iterator>::next("):
+                        continue
+                    if re.match(r"^true:<essential_asm::effects::Effects as std::cmp::PartialEq>::eq\(.*, essential_asm::effects::_::<impl essential_asm::effects::Effects>::all\(\)\)$", a):
+                        continue
+                    bad_exit.append(a[:160])
+        ctx.ob("R1", "loop-ends-only-at-end-of-input-or-when-all-flags-found", not bad_exit, g.loc(0), "other exits of the loop over ops: %s" % bad_exit, g)
         # loop over all ops
         at = []
         for bbs in seen.values():
